@@ -115,10 +115,35 @@ func FrontOracle(src string) *FrontVerdict {
 		if v.Toks[last].Kind == "EOF" && last > i {
 			last--
 		}
+		spans := false
 		for _, r := range runes[v.Toks[i].Start:v.Toks[last].End] {
 			if r == '\n' {
-				v.OOD = "a ধরি declaration spans a line break"
+				spans = true
 			}
+		}
+		// in domain after all: one variable whose initialiser is an array / object literal, with every
+		// line break strictly inside that literal and the ';' right after its closing bracket (the way
+		// tables and records are written; grammar and implementation agree on accepting these)
+		if spans && end > 0 && i+4 < end && v.Toks[i+1].Kind == "IDENT" && v.Toks[i+2].Kind == "=" && (v.Toks[i+3].Kind == "[" || v.Toks[i+3].Kind == "{") &&
+			(v.Toks[end-1].Kind == "]" || v.Toks[end-1].Kind == "}") && v.Toks[i].Line == v.Toks[i+3].Line && v.Toks[end-1].Line == v.Toks[end].Line {
+			d, closesAt := 0, -1
+			for j := i + 3; j < end; j++ {
+				switch v.Toks[j].Kind {
+				case "(", "[", "{":
+					d++
+				case ")", "]", "}":
+					d--
+					if d == 0 && closesAt < 0 {
+						closesAt = j
+					}
+				}
+			}
+			if closesAt == end-1 {
+				spans = false
+			}
+		}
+		if spans {
+			v.OOD = "a ধরি declaration spans a line break"
 		}
 	}
 	if !ok && paramFail {
